@@ -16,17 +16,18 @@ import (
 )
 
 type CaseC19 struct {
-	Kind    string                   `json:"kind"` // json | xml
-	JDocs   []map[string]interface{} `json:"jdocs,omitempty"`
-	XDocs   []*XElem                 `json:"xdocs,omitempty"`
-	Indent  bool                     `json:"indent"`
-	Prefix  string                   `json:"prefix"`
-	Ind     string                   `json:"ind"`
-	Safe    bool                     `json:"safe"`
-	Damage  string                   `json:"damage"` // none | truncate | corrupt | missing | directory
-	At      int                      `json:"at"`     // offset (taken modulo the file length)
-	Byte    byte                     `json:"byte"`
-	GobMap  map[string]interface{}   `json:"gob_map,omitempty"`
+	Kind   string                   `json:"kind"` // json | xml
+	JDocs  []map[string]interface{} `json:"jdocs,omitempty"`
+	XDocs  []*XElem                 `json:"xdocs,omitempty"`
+	Indent bool                     `json:"indent"`
+	Prefix string                   `json:"prefix"`
+	Ind    string                   `json:"ind"`
+	Safe   bool                     `json:"safe"`
+	Damage string                   `json:"damage"` // none | truncate | corrupt | missing | directory
+	At     int                      `json:"at"`     // offset (taken modulo the file length)
+	Byte   byte                     `json:"byte"`
+	Stale  bool                     `json:"stale,omitempty"` // the file exists before the write, with longer content
+	GobMap map[string]interface{}   `json:"gob_map,omitempty"`
 }
 
 func init() { register("C19", checkC19) }
@@ -47,6 +48,7 @@ func genC19(t *rapid.T) CaseC19 {
 	c.Prefix = rapid.SampledFrom(blanks).Draw(t, "prefix")
 	c.Ind = rapid.SampledFrom(blanks).Draw(t, "ind")
 	c.Safe = rapid.Bool().Draw(t, "safe")
+	c.Stale = rapid.Bool().Draw(t, "stale")
 	c.Damage = rapid.SampledFrom([]string{"none", "none", "truncate", "truncate", "corrupt", "missing", "directory"}).Draw(t, "damage")
 	c.At = rapid.IntRange(0, 100000).Draw(t, "at")
 	c.Byte = rapid.SampledFrom([]byte{'<', '>', '{', '}', '"', '\\', ' ', 0, 0xff, 'x', '/', '&', '['}).Draw(t, "byte")
@@ -213,6 +215,14 @@ func checkC19(c CaseC19, info *Info) *Failure {
 			}
 			want = append(want, w)
 		}
+	}
+	if c.Stale {
+		// an earlier, longer version of the file: a rewrite must replace it completely
+		old := strings.Repeat(`{"old":"document"}`+"\n<old>document</old>\n", 400)
+		if werr := os.WriteFile(fn, []byte(old), 0o644); werr != nil {
+			return failf("harness-io", "%v", werr)
+		}
+		info.Class("file existed with longer content")
 	}
 	switch {
 	case c.Kind == "json" && c.Indent:
